@@ -1072,6 +1072,332 @@ def run_C14(ctx):
     return res
 
 
+# ================================================================== C15
+def run_C15(ctx):
+    rng, tier = ctx.rng, ctx.tier
+    res = new_results("(a) kernel level: for random tables (sinc_len in 8N, window, oversampling factor) and random waveforms — plain, huge "
+                      "dynamic range, NaN-poisoned outside the window, every start alignment 0..7 — the AVX, SSE and scalar kernels of the "
+                      "crate are evaluated, each compared bit for bit with its Coq model and with each other within a few ulps of the sum of "
+                      "absolute products; (b) stream level: the same SincFixedIn/Out history with each kernel injected through "
+                      "new_with_interpolator and through the CPU dispatch", ['kernels', 'SincFixedIn', 'SincFixedOut'])
+    outdir = ctx.outdir
+    os.makedirs(outdir, exist_ok=True)
+    ncfg = 6 if ctx.quick else 40
+    failures = []
+    n_eval = n_corr = 0
+    for ci in range(ncfg):
+        r = rng.fork("k%d" % ci)
+        ty = r.choice(['f64', 'f32'])
+        hexf = f64hex if ty == 'f64' else f32hex
+        conv = hexf64 if ty == 'f64' else hexf32
+        slen = 8 * r.choice([1, 2, 3, 4, 5, 7, 8, 9, 16] if ctx.quick else [1, 2, 3, 5, 7, 8, 9, 15, 16, 17, 32])
+        factor = r.choice([1, 2, 4, 16])
+        fcut = f32round(r.choice([0.95, 0.8, 0.5]))
+        win = r.below(6)
+        common = "slen=%d factor=%d fcut=%s window=%d ratio=%s" % (slen, factor, f32hex(fcut), win, f64hex(1.0))
+        # 1. the tables of the three interpolators
+        tcase = Case("tab_%02d" % ci, ["T ty=%s" % ty] + ["FN f=table interp=%s %s" % (ip, common) for ip in ('scalar', 'sse', 'avx')], {})
+        run_cases([tcase], outdir, with_model=False)
+        rows = [l.split('v=', 1)[1].strip() for l in open(tcase.impl_path) if l.startswith('ROW ')]
+        if len(rows) != 3 * factor:
+            failures.append(fail(tcase, -1, "could not read the sinc tables (%d rows)" % len(rows)))
+            continue
+        tabs = [rows[i * factor:(i + 1) * factor] for i in range(3)]
+        if not (tabs[0] == tabs[1] == tabs[2]):
+            failures.append(fail(tcase, -1, "the scalar, SSE and AVX interpolators hold different sinc tables for the same parameters"))
+            continue
+        table = [expand_hex(x) for x in tabs[0]]
+        # 2. kernel evaluations
+        nk = 12 if ctx.quick else 60
+        impl_lines, model_lines, meta = ["T ty=%s" % ty], ["T ty=%s" % ty], []
+        kcode = {'scalar': 0, 'sse': 1 if ty == 'f32' else 2, 'avx': 3 if ty == 'f32' else 4}
+        for j in range(nk):
+            index = r.below(8) if r.chance(0.7) else r.below(40)
+            sub = r.below(factor)
+            mode = r.below(4)
+            if mode == 0:
+                core = [r.uniform(-1, 1) for _ in range(slen)]
+            elif mode == 1:
+                core = [r.loguniform(1e-12, 1e12) * r.choice([-1, 1]) for _ in range(slen)]
+            elif mode == 2:
+                core = [r.choice([0.0, 1.0, -1.0, 1e-30, 1e30 if ty == 'f64' else 1e20]) for _ in range(slen)]
+            else:
+                core = [float(i % 5) - 2.0 for i in range(slen)]
+            pad_lo = [NAN] * index
+            pad_hi = [NAN] * (1 + r.below(9))
+            wave = pad_lo + core + pad_hi
+            whex = ",".join(hexf(v) for v in wave)
+            chex = ",".join(hexf(v) for v in core)
+            for ip in ('scalar', 'sse', 'avx'):
+                impl_lines.append("FN f=kernel interp=%s %s w=%s index=%d sub=%d" % (ip, common, whex, index, sub))
+                model_lines.append("FN f=kernel kern=%d w=%s s=%s" % (kcode[ip], chex, ",".join(table[sub])))
+                meta.append((ip, j, index, sub, core))
+        base = os.path.join(outdir, "ker_%02d" % ci)
+        open(base + '.spec', 'w').write("\n".join(impl_lines) + "\n")
+        open(base + '.mhist', 'w').write("\n".join(model_lines) + "\n")
+        st = run_impl(base + '.spec', base + '.hist', base + '.impl')
+        impl_vals = [l[2:].strip() for l in open(base + '.impl') if l.startswith('V ')]
+        n_eval += len(meta)
+        kc = Case("ker_%02d" % ci, impl_lines, {'component': 'kernels'})
+        kc.spec_path, kc.hist_path = base + '.spec', base + '.mhist'
+        if st != 'ok' or len(impl_vals) != len(meta):
+            failures.append(fail(kc, -1, "kernel evaluation ended with %s after %d of %d calls (a read outside the window?)" % (st, len(impl_vals), len(meta))))
+            continue
+        if ctx.with_model:
+            run_model(base + '.mhist', base + '.model')
+            model_vals = [l[2:].strip() for l in open(base + '.model') if l.startswith('V ')]
+            if model_vals != impl_vals:
+                bad = next((i for i, (a, b) in enumerate(zip(impl_vals, model_vals)) if a != b), min(len(impl_vals), len(model_vals)))
+                res['disagreements'].append({'component': 'kernels', 'case': kc.name, 'spec_path': base + '.spec', 'hist_path': base + '.mhist',
+                                             'diff': {'line': bad, 'impl': impl_vals[bad] if bad < len(impl_vals) else '<end>',
+                                                      'model': model_vals[bad] if bad < len(model_vals) else '<end>', 'which': str(meta[bad][:4]) if bad < len(meta) else ''}})
+            else:
+                n_corr += len(meta)
+        eps = 2.0 ** -52 if ty == 'f64' else 2.0 ** -23
+        for j in range(0, len(meta), 3):
+            vals = [conv(impl_vals[j + k]) for k in range(3)]
+            ip, jj, index, sub, core = meta[j]
+            row = [conv(x) for x in table[sub]]
+            sabs = sum(abs(a * b) for a, b in zip(core, row))
+            tol = (slen / 8 + 8) * eps * sabs + 5e-324
+            if any(v != v for v in vals):
+                failures.append(fail(kc, jj, "a kernel returned NaN although the window [index, index+len) is NaN-free (it read outside the window): %s" % vals))
+                break
+            if max(vals) - min(vals) > tol:
+                failures.append(fail(kc, jj, "kernels disagree beyond summation-order rounding: scalar %r sse %r avx %r (tolerance %r, len %d, index %d, sub %d)"
+                                     % (vals[0], vals[1], vals[2], tol, slen, index, sub)))
+                break
+    # 3. streams with each kernel
+    cases = []
+    for i in range(9 if ctx.quick else 60):
+        r = rng.fork("ks%d" % i)
+        kind = ['sincin', 'sincout'][i % 2]
+        base_cfg = async_cfg(r, kind, 'quick', nch=1)
+        base_cfg['slen'] = base_cfg['L'] = 8 * r.choice([1, 2, 3, 5, 7])
+        base_cfg['chunk'] = min(base_cfg['chunk'], 32)
+        base_cfg['maxrel'] = 1.0
+        seedfork = r.fork('ops')
+        group = []
+        for ip in ('scalar', 'sse', 'avx', 'default'):
+            cfg = dict(base_cfg)
+            cfg['interp'] = ip
+            c = gens.valid_async_history(Rng(seedfork.s), kind, 'quick', "kstream_%03d_%s" % (i, ip), nops=5, cfg=cfg,
+                                         ops_allowed=['pib', 'process'], no_mask=True, sig="rand:%d" % (i + 7))
+            group.append(c)
+        for c in group:
+            c.meta['group'] = group
+        cases += group
+
+    def judge(c):
+        g = c.meta['group']
+        if c is not g[0]:
+            return []
+        out = []
+        ty = c.trace['ty']
+        tol = 1e-9 if ty == 'f64' else 1e-3
+        ref = c.trace
+        for o in g[1:]:
+            if not getattr(o, 'trace', None):
+                o.trace = parse_trace(o.impl_path, o.hist_path)
+            if o.meta['cfg']['interp'] == 'default' and ref['new_kv'] and o.trace['new_kv']:
+                pass
+            for i, (sa, sb) in enumerate(zip(ref['steps'], o.trace['steps'])):
+                if (sa.res, sa.fields) != (sb.res, sb.fields):
+                    out.append(fail(c, i, "kernel %s: result %s %s differs from the scalar kernel's %s %s" % (o.meta['cfg']['interp'], sb.res, sb.fields, sa.res, sa.fields)))
+                    return out
+                if sa.res in ('counts', 'vecs'):
+                    n = int(sa.fields[1]) if sa.res == 'counts' else None
+                    ya = expand_samples(sa.outs[0], ty)[:n]
+                    yb = expand_samples(sb.outs[0], ty)[:n]
+                    # the dispatched interpolator scales the cut-off for ratio < 1; only compare like with like
+                    if o.meta['cfg']['interp'] == 'default' and o.meta['cfg']['ratio'] < 1.0:
+                        continue
+                    for j, (a, b) in enumerate(zip(ya, yb)):
+                        if abs(a - b) > tol * (1 + abs(a)):
+                            out.append(fail(c, i, "kernel %s: output %d is %r, scalar kernel gives %r" % (o.meta['cfg']['interp'], j, b, a)))
+                            return out
+        return out
+
+    execute(ctx, cases, res, judge)
+    res['failures'] = failures + res['failures']
+    res['n_eval'] += n_eval
+    res['n_corr'] += n_corr
+    res['n_distinct'] += n_eval
+    res['dist'].update({'kernel_evaluations': n_eval, 'tables': ncfg, 'stream_groups': len(cases) // 4})
+    return res
+
+
+# ================================================================== C10
+def run_C10(ctx):
+    rng, tier = ctx.rng, ctx.tier
+    res = new_results("twin histories on all seven types: (A) an arbitrary valid prefix (audio, ratio changes incl. pending ramps, chunk-size "
+                      "changes, masked calls, rejected calls), then reset(), then a suffix; (B) a fresh resampler and the same suffix; getters, "
+                      "hook-visible state, internal buffers, counts and outputs of the suffix must be bit-identical", ALL_COMPONENTS)
+    cases = []
+    n = 42 if ctx.quick else 560
+    for i in range(n):
+        r = rng.fork("c10_%d" % i)
+        k = gens.ALL[i % 7]
+        pre = gens.valid_history(r.fork('pre'), k, 'quick', "rst_%04d_%s_a" % (i, k), allow_out_of_envelope=False) if k in gens.ASYNC else \
+            gens.valid_history(r.fork('pre'), k, 'quick', "rst_%04d_%s_a" % (i, k))
+        cfg = pre.meta['cfg']
+        if k in gens.ASYNC:
+            cfg['chunk'] = cfg['chunk']
+        # a rejected call and a masked call in the prefix, sometimes
+        extra = []
+        if r.chance(0.5):
+            extra.append("PIB mask=- inlen=%s outlen=%s sig=zero" % (";".join(['abs:0'] * cfg['nch']), ";".join(['abs:0'] * cfg['nch'])))
+        if r.chance(0.5) and cfg['nch'] > 1:
+            mk = "1" + "0" * (cfg['nch'] - 1)
+            extra.append("PIB mask=%s inlen=%s outlen=%s sig=rand:5" % (mk, ";".join(['next'] + ['abs:0'] * (cfg['nch'] - 1)), ";".join(['max'] + ['abs:0'] * (cfg['nch'] - 1))))
+        suf_case = gens.valid_history(r.fork('suf'), k, 'quick', "suf", cfg=dict(cfg), nops=3 + r.below(5), no_mask=True,
+                                      **({'allow_out_of_envelope': False} if k in gens.ASYNC else {}))
+        suffix = suf_case.spec[2:]
+        a = pre.spec + extra + ["RESET"] + suffix
+        b = pre.spec[:2] + suffix
+        ca = Case("rst_%04d_%s_a" % (i, k), a, {'cfg': cfg, 'nsuffix': len(suffix), 'kind': k})
+        cb = Case("rst_%04d_%s_b" % (i, k), b, {'cfg': cfg, 'is_twin': True})
+        ca.meta['twin'] = cb
+        cases += [ca, cb]
+
+    def judge(c):
+        if c.meta.get('is_twin'):
+            return []
+        b = c.meta['twin']
+        if not getattr(b, 'trace', None):
+            b.trace = parse_trace(b.impl_path, b.hist_path)
+        ta, tb = c.trace, b.trace
+        if ta['new'] != 'ok':
+            return []
+        ns = c.meta['nsuffix']
+        sa_all = ta['steps']
+        if any(s.res in FATAL for s in sa_all[:-ns] if True):
+            return []      # the prefix left the envelope (recorded finding classes); nothing to compare
+        # the reset step itself
+        k = len(sa_all) - ns - 1
+        out = []
+        if k >= 0 and state_sig(sa_all[k]) != state_sig(tb['init']):
+            out.append(fail(c, k, "after reset() the getters / control state / internal buffers differ from a freshly constructed resampler"))
+            return out
+        for j, (sa, sb) in enumerate(zip(sa_all[-ns:], tb['steps'])):
+            if (sa.res, sa.fields, sa.outs) != (sb.res, sb.fields, sb.outs) or state_sig(sa) != state_sig(sb):
+                out.append(fail(c, k + 1 + j, "call %d after reset() differs from the same call on a fresh resampler" % j))
+                break
+        return out
+
+    execute(ctx, cases, res, judge, timeout=300)
+    res['dist'].update(collections.Counter(c.meta.get('kind', 'twin') for c in cases))
+    return res
+
+
+# ================================================================== C11
+def run_C11(ctx):
+    rng, tier = ctx.rng, ctx.tier
+    res = new_results("for all seven types: an n-channel resampler (n in 1..8) with a constant mask against (i) the same history unmasked and "
+                      "(ii) n single-channel resamplers fed channel c's signal; active channels' outputs and all counts must be bit-identical, "
+                      "masked channels may be passed as empty slices and their sentinel-filled output buffers must come back untouched", ALL_COMPONENTS)
+    cases = []
+    n = 28 if ctx.quick else 350
+    for i in range(n):
+        r = rng.fork("c11_%d" % i)
+        k = gens.ALL[i % 7]
+        nch = 1 + r.below(8 if not ctx.quick else 5)
+        if k in gens.ASYNC:
+            cfg = async_cfg(r, k, 'quick', nch=nch)
+            cfg['chunk'] = max(4, min(cfg['chunk'], 48))
+            if k.startswith('sinc'):
+                cfg['slen'] = cfg['L'] = r.choice([8, 16]); cfg['interp'] = 'default'
+        else:
+            cfg = fft_cfg(r, k, 'quick', nch=nch)
+        mask = "".join(r.choice("01") for _ in range(nch))
+        if r.chance(0.15):
+            mask = "0" * nch
+        seed = r.below(10 ** 6)
+        nops = 3 + r.below(5)
+        head = ["T ty=%s" % cfg['ty']]
+
+        kinds_seq = [r.below(5) for _ in range(nops)]
+
+        def body(nchan, mk, sig, empty_masked):
+            lines = []
+            rr = Rng(seed)
+            for j in range(nops):
+                act = [(mk is None or mk[c] == '1') for c in range(nchan)]
+                il = ";".join('next' if act[c] else ('abs:0' if empty_masked else 'next') for c in range(nchan))
+                ol = ";".join('max' if act[c] else rr.choice(['abs:0', 'abs:5']) for c in range(nchan))
+                t = kinds_seq[j]
+                if t < 4:
+                    lines.append("PIB mask=%s inlen=%s outlen=%s sig=%s" % (mk or '-', il, ol, sig))
+                else:
+                    lines.append("PROCESS mask=%s inlen=%s sig=%s" % (mk or '-', il, sig))
+            return lines
+        sig = "rand:%d" % seed
+        a = Case("ch_%04d_%s_masked" % (i, k), head + [new_line(cfg)] + body(nch, mask, sig, True), {'cfg': cfg, 'mask': mask, 'kind': k})
+        b = Case("ch_%04d_%s_full" % (i, k), head + [new_line(cfg)] + body(nch, None, sig, False), {'cfg': cfg, 'is_twin': True})
+        singles = []
+        for c in range(nch):
+            c1 = dict(cfg); c1['nch'] = 1
+            # channel c of the n-channel run sees signal channel c: the generator keys on the channel index, so use chan=<c>
+            singles.append(Case("ch_%04d_%s_single%d" % (i, k, c), head + [new_line(c1)] + body(1, None, sig + " chan=%d" % c, False),
+                                {'cfg': c1, 'is_twin': True}))
+        a.meta['full'] = b
+        a.meta['singles'] = singles
+        cases += [a, b] + singles
+
+    def judge(c):
+        if c.meta.get('is_twin'):
+            return []
+        out = []
+        tr = c.trace
+        if tr['new'] != 'ok':
+            return [fail(c, -1, "constructor failed: %s" % tr['new'])]
+        mask = c.meta['mask']
+        full = c.meta['full']
+        for o in [full] + c.meta['singles']:
+            if not getattr(o, 'trace', None):
+                o.trace = parse_trace(o.impl_path, o.hist_path)
+        ty = tr['ty']
+        sent = SENTINEL64 if ty == 'f64' else SENTINEL32
+        for i, (sa, sb) in enumerate(zip(tr['steps'], full.trace['steps'])):
+            if sa.res in FATAL or sb.res in FATAL:
+                out.append(fail(c, i, "fatal outcome (%s masked / %s unmasked)" % (sa.res, sb.res)))
+                break
+            if (sa.res, sa.fields) != (sb.res, sb.fields):
+                out.append(fail(c, i, "with the mask the call returned %s %s, without it %s %s" % (sa.res, sa.fields, sb.res, sb.fields)))
+                break
+            if sa.res not in ('counts', 'vecs'):
+                continue
+            nout = int(sa.fields[1]) if sa.res == 'counts' else None
+            for ch in range(len(mask)):
+                va = expand_hex(sa.outs[ch])
+                if mask[ch] == '1':
+                    vb = expand_hex(sb.outs[ch])
+                    if va[:nout] != vb[:nout]:
+                        out.append(fail(c, i, "active channel %d differs between the masked and the unmasked run" % ch))
+                        return out
+                    s1 = c.meta['singles'][ch].trace['steps']
+                    if i < len(s1) and s1[i].res == sa.res:
+                        v1 = expand_hex(s1[i].outs[0])
+                        if (sa.res, sa.fields) != (s1[i].res, s1[i].fields) or va[:nout] != v1[:nout]:
+                            out.append(fail(c, i, "channel %d of the %d-channel resampler differs from a single-channel resampler fed the same signal" % (ch, len(mask))))
+                            return out
+                else:
+                    if sa.res == 'counts' and any(v != sent for v in va):
+                        out.append(fail(c, i, "masked channel %d: its output buffer was written" % ch))
+                        return out
+                    if sa.res == 'vecs' and va:
+                        out.append(fail(c, i, "masked channel %d: process() returned a non-empty vector" % ch))
+                        return out
+            if sa.g != sb.g:
+                out.append(fail(c, i, "getters differ between the masked and the unmasked run"))
+                break
+        return out
+
+    execute(ctx, cases, res, judge, timeout=300)
+    res['dist'].update(collections.Counter(c.meta.get('kind', 'twin') for c in cases))
+    return res
+
+
 def witness_fails(pid, c):
     """does the stored witness of a known finding still fail on this tree?"""
     tr = c.trace
@@ -1184,5 +1510,36 @@ PROPS = {
                      'sinc types: reported sinc_len*ratio/2 is NOT the alignment of the stream (known finding sinc-output-delay)'],
         'assumptions': ['ideal arithmetic'],
         'trusted_base': ['Reals axioms'],
+    },
+    'C15': {
+        'run': run_C15,
+        'pinned': ['C15_kernel_sum_R', 'C15_kernels_agree_R', 'C15_read_set'],
+        'unproved': ['C15_float_bound_full: the floating-point deviation between two summation orders (a few ulps of the sum of absolute '
+                     'products) is measured on every run, not proved; overflow/underflow with huge dynamic range likewise',
+                     'NEON kernel: not compiled on x86-64, not modelled', 'CPU dispatch order: observed (the dispatched interpolator is '
+                     'compared with the explicitly constructed ones), not modelled'],
+        'assumptions': ['ideal arithmetic for the theorems'],
+        'trusted_base': ['Reals axioms (ring)'],
+    },
+    'C10': {
+        'run': run_C10,
+        'pinned': ['C10_reset_fresh_fast_in', 'C10_reset_fresh_fast_out', 'C10_reset_fresh_sinc_in', 'C10_reset_fresh_sinc_out',
+                   'C10_reset_fresh_fft_in', 'C10_reset_fresh_fft_out', 'C10_reset_fresh_fft_inout', 'C10_reset_after_set_ratio',
+                   'C10_reset_after_set_rel', 'C10_reset_after_set_chunk', 'C10_reset_idempotent', 'C10_reset_after_pib_async'],
+        'unproved': ['reset after a successful process_into_buffer of the three FFT types (shape preservation of their buffers) is compared on '
+                     'every trace, not proved', 'the FftResampler scratch/work buffers are not reset by the code; irrelevant if the spectral '
+                     'core is a pure function of its input block (checked: same block => same bits, on every run)'],
+        'assumptions': ['determinism of the model step function (a Gallina function) gives identical behaviour from identical states'],
+        'trusted_base': ['closed under the global context (no axioms)'],
+    },
+    'C11': {
+        'run': run_C11,
+        'pinned': ['C11_shift_per_channel', 'C11_fill_per_channel', 'C11_channel_projection', 'C11_masked_untouched',
+                   'C11_fft_per_channel', 'C11_instants_data_independent'],
+        'unproved': ['the end-to-end statement "n-channel run projected on channel c = single-channel run" is assembled from the stage lemmas '
+                     'by the twin comparison on every trace; it is not a single Coq theorem',
+                     'FFT types: the shared scratch buffers are harmless because the spectral core is a pure function of its block (checked on every run)'],
+        'assumptions': ['the per-channel structure of the model transcribes the loops of the code; tied by bit-exact correspondence on 1..8 channels with sentinels'],
+        'trusted_base': ['closed under the global context (no axioms)'],
     },
 }
